@@ -23,6 +23,7 @@ type vLiveReader struct {
 	r           *Reader
 	next        int64
 	uncommitted bool
+	pending     chan string // a blocking read in flight (rwait … rjoin)
 }
 
 type vLogImpl struct {
